@@ -375,6 +375,15 @@ impl Project {
     }
 }
 
+/// Verification hook H2 (only with `--cfg vhdl_ls_rust_hdl_verif`)
+#[cfg(vhdl_ls_rust_hdl_verif)]
+impl Project {
+    /// Read access to the design root (dependency bookkeeping accessors `verif_*`)
+    pub fn verif_root(&self) -> &DesignRoot {
+        &self.root
+    }
+}
+
 /// Multiply cloneable value by cloning
 /// Avoid clone for n=1
 fn multiply<T: Clone>(value: T, n: usize) -> Vec<T> {
